@@ -601,6 +601,7 @@ func families(tier string) []fw.Family {
 	magScales := []float64{20, 100, 500}
 	radM := []int{4, len(magScales)}
 	return []fw.Family{
+		imageFamily(),
 		{Name: "magnifying views: wedge tip on a 20x20 mm canvas at 10 px/mm x 4 directions x Scale {20,100,500}", N: oracle.Prod(radM...),
 			Check: func(i int64, r *fw.R) {
 				g := oracle.Digits(i, radM...)
@@ -659,6 +660,7 @@ func Prop() *fw.Property {
 			"menus: 12 shapes, 4 rules, 4 views, resolutions {1,2.5[,8]} px/mm, 3 paints, 2 colour spaces; other inputs are outside the bound",
 			"paint tolerance 2/255 (3 with sRGB round trip; gradient colours are compared in the linear colour space only, tolerance 4 = one pixel of gradient travel); 'untouched' = every channel <= 2/255 (the third-party scanner leaves coverage of 1/255 up to two pixels from an edge; counted in the evidence)",
 			"stroke regions other than round cap/join are covered by C04 (geometry) and C12 (back-ends)",
+			"image draws (a later draw covering an earlier one): 3 image types x 9 views (quarter turns, oblique rotations, shear, anisotropic scale, mirrors) x 2 image resolutions x 2 resolutions x 2 colour spaces; a destination pixel is judged when its centre maps farther than the resampling kernel's support (2 source or destination pixels, whichever is larger, plus half a pixel of each grid) from every colour boundary of the source image; source image bytes compared before/after",
 		},
 		Families: families,
 		KnownPredicates: map[string]func(*fw.Violation) bool{
